@@ -93,7 +93,8 @@ class IODesc():
     def __init__(self, rate, channels, starting_channel, type):
         self.rate = rate
         self.channels = channels
-        self.starting_channel = starting_channel or '?'
+        self.starting_channel = (
+            starting_channel if starting_channel is not None else '?')
         self.type = type
 
     def __repr__(self):  # Was printOn.
